@@ -37,7 +37,7 @@ def run(chk):
          "C14: hook — cargo feature `beff_verif` of packages/beff-wasm (commit recorded in MANIFEST.hooks): native closures for read_file_content / resolve_import / "
          "emit_diagnostic and String-returning entry points over the SAME inner functions; the JavaScript side (commandeer.ts chokidar loop, bundler.ts fsCache/resolvedCache) is not exercised",
          "C14: in the driver instantiation every file counts as `touched` (the real LazyFileManager caches only fetched files; unobservable under the proved invariant)"],
-        ["files created or deleted during a session (resolver answers change): outside the property's quantifier (updates over a fixed project) and outside the model",
+        ["files DELETED during a session: outside the property's quantifier and outside the model. A file CREATED by its first update is covered since round 5 (one file of a history in three does not exist at the start; the host resolves imports only to existing files, as bundler.ts does; for the model an absent file declares nothing) — restricted to files no other file re-exports from: `export { X } from \"./missing\"` next to an `export *` that also provides X falls through to the star in beff where TypeScript reports the missing module (observed, not claimed)",
          "the TypeScript watch loop itself (which files are watched, chokidar events): not modelled"],
         RULE)
 
